@@ -1263,6 +1263,21 @@ def oracle_summary(r):
     return None
 
 
+def oracle_failed_delete_no_creation(r):
+    """C02 quantifier 'a failing deletion followed by queued creations': when the destination command answered with an
+    error is a deletion, no creation may be sent (evaluated on the implementation's destination trace)"""
+    sc, d = r['sc'], r['impl_r'].get('dest', [])
+    if sc.err_at_cmd is None or sc.dry:
+        return None
+    mut = [c for c in d if is_mutating(c)]
+    if sc.err_at_cmd >= len(mut) or not cmd_name(mut[sc.err_at_cmd]).startswith('Delete'):
+        return None
+    cr = [c for c in d if cmd_name(c) in ('CreateFolder', 'CreateSymlink', 'CreateOrUpdateFile')]
+    if cr:
+        return f'the deletion {mut[sc.err_at_cmd]} fails, yet {cr[0]} is sent after it'
+    return None
+
+
 def gen_mixed(rng, n, faults=True):
     return [l2.gen_scenario(rng, faults=faults) for _ in range(n)]
 
@@ -1272,7 +1287,7 @@ def gen_mixed(rng, n, faults=True):
 @prop('C02')
 def check_C02(run):
     from . import l3, l4
-    import shutil
+    import shutil, subprocess
     thorough = run.tier == 'thorough'
     if not prepare(run, need_cli=True):
         return
@@ -1283,7 +1298,13 @@ def check_C02(run):
                        'L4: the CLI on real trees whose destination contains symlinks into populated decoy directories, snapshot of source + decoys + sandbox before/after; '
                        'non-trivial = the run sent at least one mutating command or ended in an error; distinct by request line')
     scs = corpus_l2('C02') + gen_mixed(rng, 2500 if not thorough else 25000)
-    l2_stream(run, scs, [('source-read-only', oracle_src_readonly), ('ancestors', oracle_ancestors)], 'boss-traces',
+    # deletions that fail: the barrier after the delete phase
+    for _ in range(300 if not thorough else 3000):
+        sc_ = l2.gen_scenario(rng, 'folder', faults=False)
+        sc_.beh, sc_.answers, sc_.dry = 'ooooo', '', False
+        sc_.err_at_cmd = rng.randint(0, 4)
+        scs.append(sc_)
+    l2_stream(run, scs, [('source-read-only', oracle_src_readonly), ('ancestors', oracle_ancestors), ('failed-delete-no-creation', oracle_failed_delete_no_creation)], 'boss-traces',
               nontrivial=lambda r: any(is_mutating(c) for c in r['impl_r'].get('dest', [])) or r['impl_r'].get('res', '').startswith('err'),
               focus_gen=lambda: gen_mixed(rng, 5000))
     # ---- L4 with decoys
@@ -1305,15 +1326,32 @@ def check_C02(run):
             rng.shuffle(dents); dents.sort(key=lambda e: (e[0] != '', e[0].count('/')))
             l3.make_tree(dst, dents[: rng.randint(2, len(dents))] if case else dents)
             extra = rng.choice([[], ['--dry-run'], ['--dest-file-newer', 'overwrite'], ['--files-same-time', 'overwrite'], ['--filter', '-g']])
-            cases.append(('ordinary', base, src, dst, out, ['--dest-entry-needs-deleting', 'delete', '--dest-root-needs-deleting', 'delete'] + extra, None))
-        # B: the recorded finding F7a (skip of an incompatible symlink deletion, then copies beneath it)
-        base, src, dst, out = build('f7a')
-        l3.make_tree(src, [('', 'D'), ('d', 'D'), ('d/f', 'F', b'new', 2 * 10**18)])
-        l3.make_tree(dst, [('', 'D'), ('d', 'L', '../outside/dir')])
-        cases.append(('skip-incompatible-symlink', base, src, dst, out, ['--dest-entry-needs-deleting', 'skip'], 'C02-F7a'))
-        for kind, base, src, dst, out, args, finding in cases:
+            cases.append(('ordinary', base, src, dst, out, ['--dest-entry-needs-deleting', 'delete', '--dest-root-needs-deleting', 'delete'] + extra, None, None))
+        # B: kept destination symlinks (the repaired findings F7a / F7b): a deletion that is skipped by a behaviour choice, at depth and on
+        # the root, and a deletion that fails on the doer (run as uid 65534 in a destination it may not change) with creations queued behind it
+        def as_nobody():
+            os.setgroups([]); os.setgid(65534); os.setuid(65534)
+        skip_variants = [['--dest-entry-needs-deleting', 'skip'], ['--all-destructive-behaviour', 'skip'], ['--dest-entry-needs-deleting', 'prompt']]
+        for vi, sv in enumerate(skip_variants if not thorough else skip_variants * 3):
+            base, src, dst, out = build(f'skip{vi}')
+            big = [(f'a{i:02d}', 'F', b'x' * rng.choice([10, 100000]), 2 * 10**18) for i in range(rng.choice([0, 3, 24]))]
+            l3.make_tree(src, [('', 'D')] + big + [('d', 'D'), ('d/f', 'F', b'new', 2 * 10**18), ('d/precious.txt', 'F', b'overwritten?', 2 * 10**18), ('d/sub', 'D'), ('d/sub/g', 'F', b'g', 2 * 10**18)])
+            l3.make_tree(dst, [('', 'D'), ('d', 'L', '../outside/dir')])
+            cases.append(('skip-incompatible-symlink', base, src, dst, out, sv, None, None))
+        base, src, dst, out = build('rootgate')
+        l3.make_tree(src, [('', 'F', b'new root file', 2 * 10**18)]); l3.make_tree(dst, [('', 'L', 'outside/file.txt')])
+        cases.append(('root-symlink-entry-skip', base, src, dst, out, ['--dest-root-needs-deleting', 'delete', '--dest-entry-needs-deleting', 'skip'], None, 'noslash'))
+        for vi in range(2 if not thorough else 8):
+            base, src, dst, out = build(f'faildel{vi}')
+            l3.make_tree(src, [('', 'D'), ('d', 'D'), ('d/f', 'F', b'new', 2 * 10**18), ('d/g', 'F', b'new2', 2 * 10**18), ('d/precious.txt', 'F', b'overwritten?', 2 * 10**18), ('e', 'F', b'e', 2 * 10**18)])
+            l3.make_tree(dst, [('', 'D'), ('d', 'L', '../outside/dir'), ('old', 'F', b'o', 10**18)][: 3 if vi % 2 else 2])
+            subprocess.run(['chmod', '-R', 'a+rX', base], capture_output=True); os.chmod(out + '/dir', 0o777); os.chmod(out + '/dir/precious.txt', 0o666); os.chmod(sb.dir, 0o755)
+            cases.append(('failing-deletion-then-queued-creations', base, src, dst, out, ['--dest-entry-needs-deleting', 'delete'], as_nobody, None))
+        for kind, base, src, dst, out, args, pre, spelling in cases:
+            finding = None
             before = {k: l3.snapshot(p) for k, p in (('src', src), ('outside', out))}
-            r = l4.run_cli([src + '/', dst + '/'] + args, env=sb.env(), timeout=60)
+            env = sb.env({'RJRSSYNC_TEST_PROMPT_RESPONSE': '1:.*:Skip \\(all occurences\\)'} if args[-1] == 'prompt' else {})
+            r = l4.run_cli(([src, dst] if spelling == 'noslash' else [src + '/', dst + '/']) + args, env=env, timeout=60, preexec=pre)
             after = {k: l3.snapshot(p) for k, p in (('src', src), ('outside', out))}
             changed = [k for k in before if before[k] != after[k]]
             run.case(('l4-decoy', kind, tuple(args), str(sorted(l3.snapshot(dst)))), True,
@@ -2150,3 +2188,187 @@ def check_C19(run):
     run.cov['trusted_base'] = C.GLOBAL_TRUST + ['dev-profile integer semantics (overflow checks on) is what the harness and the suite run; the release profile differs only where an overflow occurs',
                                                 'PARTIAL: the general round-trip / preservation statement over all valid layouts is carried by the byte-exact correspondence + oracle, not by a Lean theorem; Windows loading of the PE result cannot be exercised here (no PE can run)',
                                                 'deployment of the augmented binary through fake scp + handshake is covered by C15\'s launch matrix']
+
+
+# ------------------------------------------------------------------ C01 / C04 / C12 (shared L4 machinery in mirror.py)
+
+def oracle_mirror_plan(r):
+    """independent plan-level mirror oracle on the *implementation's* destination trace: apply it to the scripted
+    destination listing; the result must mirror the scripted source listing (folder roots, run ended ok)"""
+    ir, sc = r['impl_r'], r['sc']
+    d = ir.get('dest', [])
+    if ir.get('res') != 'ok' or sc.dry or 'Marker(Done)' not in d:
+        return None
+    sa = sides_asked(sc)
+    if not sa[0]:
+        return None
+    src = {p: v for p, v in effective_src_listing(sc).items() if p != ''}
+    before = {p: v for p, v in effective_dest_listing(sc).items() if p != ''}
+    cur = dict(before)
+    scripts = dict(sc.files)
+    diff = sc.dest_reply[2] if sc.dest_reply[0] == 'R' else 0
+    openf = None
+    for c in d:
+        n = cmd_name(c)
+        if n in ('SetRoot', 'GetEntries', 'Marker', 'CreateRootAncestors', 'Shutdown'):
+            continue
+        a = cmd_args(c); p = cmd_path(c)
+        if p == '':
+            continue
+        par = p.rsplit('/', 1)[0] if '/' in p else ''
+        if n.startswith('Delete'):
+            if p not in cur:
+                return f'{n} of {p!r}, which the destination does not hold'
+            if {'DeleteFile': 'F', 'DeleteFolder': 'D', 'DeleteSymlink': 'L'}[n] != cur[p][0]:
+                return f'{n} of {p!r}, which is {cur[p]}'
+            if n == 'DeleteFolder' and any(q.startswith(p + '/') for q in cur):
+                return f'folder {p!r} deleted while it still has entries'
+            del cur[p]
+        else:
+            if par != '' and cur.get(par) != 'D':
+                return f'{n} of {p!r} while its parent is {cur.get(par)}'
+            if n == 'CreateFolder':
+                if p in cur: return f'CreateFolder over existing {cur[p]} at {p!r}'
+                cur[p] = 'D'
+            elif n == 'CreateSymlink':
+                if p in cur: return f'CreateSymlink over existing {cur[p]} at {p!r}'
+                cur[p] = f'L:{a[1]}:{a[2]}'
+            elif n == 'CreateOrUpdateFile':
+                data = bytes.fromhex(a[1])
+                if openf and openf[0] == p:
+                    openf[1] += data
+                else:
+                    if p in cur and not cur[p].startswith('F:'): return f'file written over {cur[p]} at {p!r}'
+                    openf = [p, data]
+                if a[2] != '-':
+                    want = b''.join(ch for ch, _ in scripts.get(p, []))
+                    if openf[1] != want[:len(openf[1])] or len(openf[1]) != int(src.get(p, 'F:0:-1').split(':')[2]):
+                        return f'bytes written to {p!r} are not the source\'s bytes'
+                    cur[p] = f'F:{a[2]}:{len(openf[1])}'
+                    openf = None
+    if openf:
+        return f'file {openf[0]!r} left without its time stamp'
+    for p, s in src.items():
+        c_ = cur.get(p)
+        if c_ == s:
+            continue
+        if c_ is not None and s.startswith('F:') and c_.startswith('F:') and c_ == before.get(p) and c_.split(':')[1] == s.split(':')[1] and sc.beh[2] == 's':
+            continue          # same time: deemed up to date
+        if c_ is not None and s.startswith('L:') and c_.startswith('L:') and c_ == before.get(p) and c_.split(':')[2] == s.split(':')[2] and not diff:
+            continue          # same text; kind differs, destination does not distinguish
+        return f'after the sync the destination holds {c_} at {p!r}, the source {s}'
+    extra = [p for p in cur if p not in src]
+    if extra:
+        return f'additional entries {extra[:3]}'
+    return None
+
+
+def _mirror_setup(run, need_harness=False):
+    from . import l4
+    if not prepare(run, need_cli=True):
+        return None
+    sb = l4.Sandbox(); sb.place_remote('same')
+    return sb
+
+
+@prop('C01')
+def check_C01(run):
+    from . import l3, l4, mirror as M
+    import shutil, subprocess
+    thorough = run.tier == 'thorough'
+    sb = _mirror_setup(run)
+    if sb is None:
+        return
+    rng = run.rng
+    run.cov['rule'] = ('L2: the real sync() against scripted doers, no-skip behaviours; request = (roots, listings in a forced order, file scripts); destination trace = model trace; independent oracle: the '
+                       'implementation\'s trace applied to the scripted destination mirrors the scripted source. L4: the CLI on generated tree pairs (sizes on chunk boundaries, ns / epoch / far-future times, '
+                       'kind swaps at depth and on the root, links of every form, missing destination ancestors, filters, trailing-slash spellings) in the 4 placements (fake ssh: real --doer, TCP, AES-GCM) '
+                       'and spec files with several syncs; oracle: independent snapshot comparison incl. filter-excluded entries untouched; forbidden slash combinations: both sides untouched; '
+                       'non-trivial = exit 0 with at least one change made; distinct by case')
+    try:
+        # ---- L2
+        scs = corpus_l2('C01')
+        for _ in range(250 if not thorough else 4000):
+            s = l2.gen_scenario(rng, rng.choice(['folder', 'folder', 'mixed']), faults=False)
+            s.beh, s.answers, s.dry, s.err_at_cmd = rng.choice(['oosoo', 'ooooo']), '', False, None
+            scs.append(s)
+        l2_stream(run, scs, [('mirror-plan', oracle_mirror_plan)], 'mirror',
+                  nontrivial=lambda r: r['impl_r'].get('res') == 'ok' and len(trace_actions(r['impl_r'].get('dest', []))) >= 2)
+        # ---- L4
+        fails = []
+        n = 70 if not thorough else 900
+        for i in range(n):
+            c = M.gen_case(rng, sb, i)
+            before = M.snap_all(c)
+            r = M.run_case(sb, c)
+            after = M.snap_all(c)
+            changed = before['whole_dst'] != after['whole_dst']
+            run.case(('l4', i, c.placement, tuple(c.args[2:4])), r['rc'] == 0 and changed,
+                     sample=dict(layer='L4', **M.describe(c), rc=r['rc'], entries=len(before['src'])) if i % 12 == 0 else None)
+            run.count(f'l4:{c.placement}:rc={r["rc"]}'); run.count(f'l4:src={c.src_kind},dest={c.dst_kind}{"/" if c.dst_slash else ""}'); run.count('l4:filters=' + str(len(c.filters)))
+            run.cov['traces_validated_against_impl'] += 1
+            if r['rc'] == 0:
+                diffs = M.mirror_diffs(before['src'], before['dst'], after['dst'], c.filters)
+                # nothing but the effective destination may change below the destination's parent
+                eff_rel = os.path.relpath(c.effective, os.path.join(c.base, 'dd')).encode()
+                for p in set(before['whole_dst']) | set(after['whole_dst']):
+                    inside = p == b'' or p == eff_rel or p.startswith(eff_rel + b'/') or eff_rel.startswith(p + b'/')
+                    if not inside and before['whole_dst'].get(p) != after['whole_dst'].get(p):
+                        diffs.append(f'{p!r} outside the effective destination changed')
+                if diffs and len(fails) < 3:
+                    fails.append(dict(layer='L4', **M.describe(c), rc=r['rc'], differences=diffs[:8], src_tree=M.tree_listing(c.src_path), dest_tree_after=M.tree_listing(os.path.join(c.base, 'dd')),
+                                      stderr=r['err'][-600:]))
+            elif r['timeout'] or r['rc'] not in (12,):
+                if len(fails) < 3:
+                    fails.append(dict(layer='L4', **M.describe(c), rc=r['rc'], differences=['the run did not end with status 0 or 12'], stderr=r['err'][-800:]))
+            shutil.rmtree(c.base, ignore_errors=True)
+        # ---- forbidden combinations: rejected with both sides untouched
+        base = os.path.join(sb.dir, 'forbidden'); os.makedirs(base); M.make_decoys(base)
+        l3.make_tree(base + '/sf', [('', 'F', b'file', 10 ** 18)]); l3.make_tree(base + '/sl', [('', 'L', 'nowhere')]); l3.make_tree(base + '/sd', [('', 'D'), ('x', 'F', b'x', 10 ** 18)])
+        l3.make_tree(base + '/df', [('', 'F', b'dest', 5)]); l3.make_tree(base + '/dl', [('', 'L', 'outside_file')]); l3.make_tree(base + '/dd', [('', 'D'), ('y', 'F', b'y', 7)])
+        combos = [('missing', 'dd'), ('missing/', 'dd/'), ('missing', 'nothing'), ('sf/', 'dd'), ('sf/', 'dd/'), ('sf/', 'nothing'), ('sl/', 'dd/'), ('sf', 'df/'), ('sd', 'df/'), ('sd/', 'df/'), ('sl', 'df/'), ('sd/', 'dl/')]
+        for s_, d_ in combos:
+            for pl in (('', ''), ('localhost:', ''), ('', 'localhost:')) if thorough or s_ in ('sf/', 'missing') else (('', ''),):
+                b0 = l3.snapshot(base)
+                r = l4.run_cli([pl[0] + base + '/' + s_, pl[1] + base + '/' + d_] + M.FLAGS_NO_SKIP, env=sb.env({'RJRSSYNC_TEST_PROMPT_RESPONSE': ''}), timeout=60, cwd=base)
+                b1 = l3.snapshot(base)
+                run.case(('forbidden', s_, d_, pl), True, sample=dict(layer='L4', src=s_, dest=d_, placement=pl, rc=r['rc']) if pl == ('', '') else None)
+                run.count(f'forbidden:rc={r["rc"]}')
+                if s_ == 'sd/' and d_ == 'dl/':
+                    continue      # (the starred column: a trailing slash on a link to a *file* is an OS-level error; either way nothing may change — checked below)
+                if (r['rc'] == 0 or b0 != b1) and len(fails) < 3:
+                    fails.append(dict(layer='L4', src=s_, dest=d_, placement=pl, rc=r['rc'], differences=['a forbidden trailing-slash combination was accepted' if r['rc'] == 0 else 'a rejected combination changed a side'],
+                                      changed=[repr(p) for p in set(b0) | set(b1) if b0.get(p) != b1.get(p)][:6], stderr=r['err'][-400:]))
+        # ---- a spec file with several syncs
+        for j in range(4 if not thorough else 40):
+            cs = [M.gen_case(rng, sb, 10_000 + j * 10 + k, root_leaf_prob=0.1) for k in range(rng.randint(2, 3))]
+            sp = os.path.join(sb.dir, f'spec{j}.yaml')
+            y = 'syncs:\n'
+            for c in cs:
+                import json as _json
+                y += f'  - src: {_json.dumps(c.src_path + ("/" if c.src_slash else ""))}\n    dest: {_json.dumps(c.dst_path + ("/" if c.dst_slash else ""))}\n'
+                if c.filters: y += '    filters: [ ' + ', '.join(_json.dumps(f) for f in c.filters) + ' ]\n'
+                y += '    dest_file_newer_behaviour: overwrite\n    dest_file_older_behaviour: overwrite\n    dest_entry_needs_deleting_behaviour: delete\n    dest_root_needs_deleting_behaviour: delete\n'
+            open(sp, 'w').write(y)
+            befores = [M.snap_all(c) for c in cs]
+            r = l4.run_cli(['--spec', sp, '--no-progress'], env=sb.env({'RJRSSYNC_TEST_PROMPT_RESPONSE': ''}), timeout=120, cwd=sb.dir)
+            run.case(('spec', j), r['rc'] == 0, sample=dict(layer='L4', syncs=len(cs), rc=r['rc'])); run.count(f'spec:rc={r["rc"]}')
+            if r['rc'] == 0:
+                for c, b in zip(cs, befores):
+                    a = M.snap_all(c)
+                    diffs = M.mirror_diffs(b['src'], b['dst'], a['dst'], c.filters)
+                    if diffs and len(fails) < 3:
+                        fails.append(dict(layer='L4', spec=y.replace(sb.dir, '<base>'), **M.describe(c), rc=0, differences=diffs[:8]))
+            for c in cs: shutil.rmtree(c.base, ignore_errors=True)
+    finally:
+        subprocess.run(['chmod', '-R', 'u+rwx', sb.dir], capture_output=True); sb.close()
+
+    def on_broken(failed):
+        return dict(found_by='L4 tree-pair stream with the independent mirror comparison', **fails[0]) if fails else None
+    C.proofs_step(run, 'C01', on_broken)
+    if fails and not any(not v[1] for v in run.violations):
+        run.violation(dict(kind='oracle-failed-on-implementation', oracle='exit 0 without skips => the effective destination mirrors the source; excluded entries untouched; forbidden combinations change nothing',
+                           failing_cases=len(fails), **fails[0]))
+    run.cov['trusted_base'] = C.GLOBAL_TRUST + ['PARTIAL: the effect of the doer\'s operations on a real file system is validated (L3/L4 with an independent snapshot comparison), not proved; proved: slash table, closed-form plan and its pointwise mirror property, exact delete/create traces of an error-free run',
+                                                'remote placements run against a fake ssh/scp on this host (real --doer process, real TCP and AES-GCM); Windows doers are not runnable here',
+                                                'the independent filter evaluation uses Python re.fullmatch on patterns whose syntax coincides with the regex crate']
